@@ -379,6 +379,20 @@ func observeWal(cases string, ow *bufio.Writer, root string) error {
 				return err
 			}
 			fmt.Fprintf(ow, "R %s %s\n", fs[1], line)
+		case "T":
+			// truncation image: file <fidx> of the directory ends after <size> bytes (a tail that
+			// was being extended past its allocation, or the old tail between Truncate and sync in cut)
+			files := cloneFiles(dirs[fs[2]])
+			fi, _ := strconv.Atoi(fs[5])
+			sz, _ := strconv.Atoi(fs[6])
+			if fi < len(files) && sz <= len(files[fi].data) {
+				files[fi].data = files[fi].data[:sz]
+			}
+			line, err := observeDir(root, files, unhx(fs[3]), unhx(fs[4]))
+			if err != nil {
+				return err
+			}
+			fmt.Fprintf(ow, "R %s %s\n", fs[1], line)
 		case "Z":
 			files := cloneFiles(dirs[fs[2]])
 			synced, _ := strconv.Atoi(fs[5])
